@@ -20,6 +20,7 @@ MODULES = {
     "C07": "c07_formats",
     "C08": "c08_species",
     "C09": "c09_index",
+    "C10": "c10_symbols",
     "C12": "c12_expr",
     "C13": "c13_modifiers",
     "C14": "c14_network",
